@@ -6,9 +6,9 @@ Memory is `Nat → UInt8`; a value of Go type `t` is a byte list of length `size
 `*(*A)(unsafe.Pointer(uintptr(unsafe.Pointer(s)) + lens.Offset + lens.RootOffs)) = a`
 overwrites `[s + Offset + RootOffs, + size A)` and returns `s`.
 
-The model is faithful to today's code, including what it gets wrong (DESIGN section 9, F5/F6):
-nothing here knows whether an entry was reached through a pointer, and the container type
-parameter is never required to be a struct.
+The model is faithful to today's code, including what it gets wrong (DESIGN section 9, F5):
+nothing here knows whether an entry was reached through a pointer.  (F6 is repaired: `NewLens` and
+`NewReflector` panic unless the container type parameter is a struct.)
 -/
 import Golem.Model.Hseq
 namespace Golem.Model
@@ -29,13 +29,20 @@ structure Lens where
   A : GoType
   deriving DecidableEq, Repr
 
-/-- `NewLens[S, A](t)`: `ft.String() == fv.String() && ft.AssignableTo(fv)` else `panic(fmt.Errorf(…))`. -/
+/-- `NewLens[S, A](t)`:
+```
+if cat := reflect.TypeOf(new(S)).Elem(); cat.Kind() != reflect.Struct { panic(fmt.Errorf(…)) }
+if ft.String() == fv.String() && ft.AssignableTo(fv) { return &lens[S, A]{t} }
+panic(fmt.Errorf(…))
+``` -/
 def newLens (S A : GoType) (t : Entry) : Except Panic Lens :=
-  if t.field.type = A then .ok ⟨t, S, A⟩ else .error .error
+  if S.kind ≠ .struct then .error .error
+  else if t.field.type = A then .ok ⟨t, S, A⟩ else .error .error
 
-/-- `NewReflector[S, A](t)`: the same guard, the same `&lens[S, A]{t}`. -/
+/-- `NewReflector[S, A](t)`: the same container check, the same guard, the same `&lens[S, A]{t}`. -/
 def newReflector (S A : GoType) (t : Entry) : Except Panic Lens :=
-  if t.field.type = A then .ok ⟨t, S, A⟩ else .error .error
+  if S.kind ≠ .struct then .error .error
+  else if t.field.type = A then .ok ⟨t, S, A⟩ else .error .error
 
 /-- `uintptr(unsafe.Pointer(s)) + lens.Offset + lens.RootOffs`. -/
 def Lens.addr (l : Lens) (s : Nat) : Nat := s + l.entry.offset + l.entry.rootOffs
